@@ -85,8 +85,7 @@ def canonical_fields(program, ctx, rid):
                 if isinstance(expr, ast.Call) and call_name(expr).endswith("fullmatch") and len(expr.args) == 2 and field_of(expr.args[1]) == field and isinstance(expr.args[0], ast.Constant) and re.fullmatch(r"\[0-9a-f\](\{\d+\}|\+)", str(expr.args[0].value)):
                     return pol
             if kind == "INT":
-                if isinstance(expr, ast.Call) and call_name(expr) == "isinstance" and len(expr.args) == 2 and field_of(expr.args[0]) == field and dotted(expr.args[1]) == "int":
-                    return pol
+                # isinstance(x, int) is NOT enough: bool is a subclass of int and renders as True/False
                 if isinstance(expr, ast.Compare) and len(expr.ops) == 1 and isinstance(expr.left, ast.Call) and call_name(expr.left) == "type" and field_of(expr.left.args[0]) == field and dotted(expr.comparators[0]) == "int":
                     return (isinstance(expr.ops[0], (ast.Is, ast.Eq)) and pol) or (isinstance(expr.ops[0], (ast.IsNot, ast.NotEq)) and not pol)
             return False
@@ -444,7 +443,38 @@ def rule_http(program, ctx):
         ctx.bad(finding_func(P, rid, tj, "Event.to_json_object no longer maps the seven fields one to one", text="def to_json_object(...)"))
 
 
+def rule_subid(program, ctx):
+    rid = ctx.rule(
+        "C04.subid",
+        "the subscription id used for a REQ/CLOSE is exactly `str(message[1])` (no truncation, case folding or other normalisation): EVENT and EOSE frames "
+        "must carry the string the client supplied",
+        floor=2,
+    )
+    sc = program.func("nostr_relay.web:start_client")
+    binds = stores_of(sc, "sub_id")
+    if not binds:
+        ctx.bad(finding_func(P, rid, sc, "no `sub_id` binding in the connection handler", text="def start_client(...) :: sub_id"))
+    for b in binds:
+        v = b.value if isinstance(b, ast.Assign) else None
+        if v is not None and ast.unparse(v) in ("str(message[1])", "message[1]"):
+            ctx.ok(rid, b, f"sub_id = {ast.unparse(v)}")
+        else:
+            ctx.bad(finding_at(P, rid, b, f"the subscription id is bound to `{ast.unparse(v) if v is not None else norm(b)}`: frames then carry a string that differs from the one the client supplied"))
+    for c in ast.walk(sc):
+        if isinstance(c, ast.Call) and call_name(c) in ("storage.subscribe", "storage.unsubscribe") and len(c.args) >= 2:
+            a = c.args[1]
+            if not (isinstance(a, ast.Name) and a.id == "sub_id"):
+                ctx.bad(finding_at(P, rid, c, f"{call_name(c)} is given `{ast.unparse(a)}` as subscription id instead of the client's string"))
+    # the id travels unchanged through the subscription object and the queue
+    init = program.func("nostr_relay.storage.base:BaseSubscription.__init__")
+    if any(isinstance(s, ast.Assign) and dotted(s.targets[0]) == "self.sub_id" and dotted(s.value) == "sub_id" for s in ast.walk(init)):
+        ctx.ok(rid, init, "BaseSubscription keeps sub_id as given")
+    else:
+        ctx.bad(finding_func(P, rid, init, "BaseSubscription.__init__ transforms the subscription id", text="def __init__(...) :: sub_id"))
+
+
 def run(program, ctx):
+    rule_subid(program, ctx)
     proven = rule_canonical(program, ctx)
     rule_serializer(program, ctx, proven)
     rule_frames(program, ctx)
@@ -465,6 +495,8 @@ KV = "nostr_relay/storage/kv.py"
 VAL = "nostr_relay/validators.py"
 
 MUTANTS = [
+    M("c04-created-at-isinstance", VAL, "type(event.created_at) is int", "isinstance(event.created_at, int)", "C04.canonical"),
+    M("c04-subid-truncated", WEB, "                    sub_id = str(message[1])\n                    await storage.subscribe(", "                    sub_id = str(message[1])[:64]\n                    await storage.subscribe(", "C04.subid"),
     M("c04-eose-fstring", WEB, "message = json_dumps([\"EOSE\", sub_id])", "message = f'[\"EOSE\",\"{sub_id}\"]'", "C04.frames", canary=True),
     M("c04-send-str", WEB, "await ws_send(json_dumps(response))", "await ws_send(str(response))", "C04.frames"),
     M("c04-unknown-head", WEB, "await ws_send(json_dumps([\"NOTICE\", str(e)]))", "await ws_send(json_dumps([\"ERROR\", str(e)]))", "C04.frames"),
@@ -488,4 +520,15 @@ EQUIVS = [
     E("c04-eq-notice-var", WEB, "                    await ws_send(json_dumps([\"NOTICE\", str(e)]))\n                except ConnectionClosedError:\n                    break\n            except AuthenticationError as e:",
       "                    notice = [\"NOTICE\", str(e)]\n                    await ws_send(json_dumps(notice))\n                except ConnectionClosedError:\n                    break\n            except AuthenticationError as e:"),
     E("c04-eq-tags-whole-dump", UTIL, "{encode_basestring(event.content)},\"tags\":[{tags}]}}]'", "{encode_basestring(event.content)},\"tags\":{json_dumps(event.tags)}}}]'"),
+]
+
+# functions whose syntactic mutants are used for the thorough tier's sensitivity figure (sa/automut.py)
+ANCHORS = [
+    "nostr_relay.util:event_as_json",
+    "nostr_relay.web:send_subscriptions",
+    "nostr_relay.storage.db:event_from_tuple",
+    "nostr_relay.storage.kv:encode_event",
+    "nostr_relay.storage.kv:decode_event",
+    "nostr_relay.validators:is_signed",
+    "nostr_relay.validators:_is_lower_hex",
 ]
